@@ -1043,8 +1043,15 @@ func Run(ctx *core.Ctx) {
 		"some candidate on its own and the list has at least two rules or an exclude rule; about one list in eight is built around a shape on which the code failed before " +
 		"the repair of F10/F26 (a rule with an unscoped top-level flag group followed by a rule whose answer that flag would change; an upper-case letter leading one rule and " +
 		"the same letter case-folded leading another), with the subjects that told the difference; item cases (damaged patterns through ParseRegexpListItem) are non-trivial when accepted; " +
+		"site cases: one proxy with deny-, direct- and mitm-domains lists (each given with probability 85%, 1-4 rules from a pool that tells a host from an authority: anchors, " +
+		"brackets, ':port' suffixes, letter case, exact length, rules derived from the targets), an upstream proxy and MITM, and 20-29 requests over names (mixed case, trailing dot), " +
+		"dotted quads and bracketed IPv6 literals (upper-case hex, embedded IPv4, zone id, a last group that looks like a port) x no port / empty port / explicit port x absolute-form " +
+		"(plain, with userinfo, with a Host header naming another host) / origin-form on the proxy port / CONNECT / origin-form inside an intercepted CONNECT; every request is one evaluation, " +
+		"non-trivial when the authority differs from the host or some list says yes; in-process the argument of every Match call is recorded, the last cases run through the real binary; " +
 		"distinct = distinct canonical inputs")
 	ctx.Assume("Go's regexp package (parser, flag scoping, matching engines) is trusted: it is the per-rule oracle, and its flag-scoping rule is the modelled fact")
+	ctx.Assume("the host a request is addressed to is the host the generator assembled its authority from (RFC 3986 host [ ':' port ], IP-literal in brackets); Go's net/http request parsing is trusted to deliver that authority in req.URL.Host")
+	inRun = true // the binary built for a corpus case is kept for the generated ones
 	for _, c := range core.LoadCorpus(ctx.Root, "C17") {
 		Replay(ctx, c)
 	}
@@ -1075,6 +1082,21 @@ func Run(ctx *core.Ctx) {
 			ctx.Sample(bc)
 		}
 	}
+	// which string the three lists are asked about: requests of every target spelling through one proxy that
+	// has deny-, direct- and mitm-domains (in-process with recording matchers, and the real binary)
+	nSite, nSiteBin := ctx.N(36, 400), ctx.N(3, 40)
+	for i := 0; i < nSite+nSiteBin; i++ {
+		r := ctx.Rng.Sub()
+		mode := "inproc"
+		if i >= nSite {
+			mode = "binary"
+		}
+		sc := genSite(r, mode, r.Range(14, 22))
+		runSite(ctx, sc)
+		if i == 0 || i == nSite {
+			ctx.Sample(sc)
+		}
+	}
 	rig.RemoveBinary()
 	for i := 0; i < nItem; i++ {
 		r := ctx.Rng.Sub()
@@ -1086,6 +1108,9 @@ func Run(ctx *core.Ctx) {
 		}
 	}
 }
+
+// inRun: Replay is called from Run (corpus), not for a single replay file.
+var inRun bool
 
 func Replay(ctx *core.Ctx, raw json.RawMessage) {
 	var k struct {
@@ -1106,6 +1131,13 @@ func Replay(ctx *core.Ctx, raw json.RawMessage) {
 		json.Unmarshal(raw, &bc)
 		runBin(ctx, bc)
 		rig.RemoveBinary()
+	case "site":
+		var sc siteCase
+		json.Unmarshal(raw, &sc)
+		runSite(ctx, sc)
+		if !inRun {
+			rig.RemoveBinary()
+		}
 	default:
 		core.Fatalf("C17: unknown case kind %q", k.Kind)
 	}
